@@ -506,6 +506,7 @@ func c13R1(p *core.Program, r *core.Report) {
 	}
 	// ... and what was stored stays: nothing is taken out of a table again ("exactly the package-scope names, init and
 	// blank-named functions aside" - those two names are the only ones a removal may name)
+	r.Floor("R10", 1)
 	nDel := 0
 	for _, f := range pkgUnits(p, "pkg/types") {
 		info := f.Info()
@@ -523,12 +524,12 @@ func c13R1(p *core.Program, r *core.Report) {
 			if name == "builtin.delete" && len(c.Args) == 2 && tableKind(fld.Type()) == "functions" {
 				ok = constStrIs(info, c.Args[1], "init") || constStrIs(info, c.Args[1], "_")
 			}
-			r.Check(ok, rule, f, "nothing is taken out of a declaration table: "+core.ExprStr(c), c.Pos(), "removes only init / the blank name from the functions table",
+			r.Check(ok, "R10", f, "nothing is taken out of a declaration table: "+core.ExprStr(c), c.Pos(), "removes only init / the blank name from the functions table",
 				"`"+core.ExprStr(c)+"` removes a package-scope object from the table the accessors answer from: Functions()/Function(name) no longer match the package scope (the type checker does declare main in the scope of a command)")
 		}
 	}
 	if nDel == 0 {
-		r.OK(rule, nil, "nothing is taken out of a declaration table", token.NoPos, "no delete / clear on a declaration table in pkg/types")
+		r.OK("R10", nil, "nothing is taken out of a declaration table", token.NoPos, "no delete / clear on a declaration table in pkg/types")
 	}
 }
 
@@ -894,6 +895,14 @@ func c13R3(p *core.Program, r *core.Report) {
 		without, _ := exactlyOnePerIteration(g, rs, isRec, skip)
 		r.Check(!without, rule, reg, "every imported package is registered before the record is built", rs.Pos(), "each iteration over p.Imports registers the import unless the universe already has it",
 			"an import can be skipped without being registered (e.g. std packages imported by std packages): newPkg then maps that import path to nil, and the skipped package is missing from the universe unless something else imports it")
+		// ... for every package that gets a record: the loop is on every path to the construction
+		for _, c := range core.Calls(reg.Body, true) {
+			if core.CalleeName(info, c) != core.G("pkg/types.newPkg") {
+				continue
+			}
+			r.Check(g.Dominates(g.PointOf(rs.X), g.PointOf(c)), rule, reg, "the imports of every registered package are followed", rs.Pos(), "the loop over p.Imports dominates the construction of the record",
+				"a package can get its record without its imports having been followed (the loop is behind a condition): the packages it imports are missing from the universe unless something else brings them in - Universe.Package(path) answers nil for a type's package, which Context.Doc dereferences")
+		}
 		return true
 	})
 	if nImportLoops == 0 {
